@@ -183,8 +183,8 @@ class Engine:
         self.resolve_cache={}
         self.const_cache={}
         self.log_enabled=False
-        from . import models as _m
-        _m.register_all(self)
+        from . import models as _m, models_json as _mj
+        _mj.register(self); _m.register_all(self)
 
     # ---------------------------------------------------------------- registration
     def model(self,pattern,fn,name=None):
@@ -234,6 +234,7 @@ class Engine:
                     want=last_ident(m.group(1))
                     sel=[b for b in c if b.params and last_ident(b.params[0][1])==want]
                     if len(sel)==1: return sel[0]
+                    if len(sel)==0: return None
                 raise Unsupported('ambiguous impl '+key)
             # generic parameter / dyn: dispatch on run-time type of the receiver
             if (re.match(r'^(dyn |impl )?[A-Z][A-Za-z0-9_]*$',ty) or ty.startswith('dyn ')) and argv and (tyn not in self.src.structs and tyn not in self.src.enums):
